@@ -21,7 +21,12 @@ TRUSTED = ["xarray interpolate_na / ffill / bfill / sortby / idxmax / shift / su
 ASSUMPTIONS = ["ordinates are dyadic (k/8), thresholds small integers / halves, rounding precisions dyadic: float arithmetic is exact "
                "or compared to 1e-9", "thresholds and observations are finite or NaN (no infinities)",
                "float rounding is not modelled: exact CRPS ties in adjust_fcst_for_crps are accepted either way unless the float "
-               "computation is exact (trapz, dyadic grid)"]
+               "computation is exact (trapz, dyadic grid)",
+               "storage dtypes (ordinates float32 / int64..int8 / bool / uint8 / uint16, threshold coordinates and observations "
+               "int64..int8 / uint8 / uint16 / float32, list arguments as python ints / integer or float32 ndarrays, precisions and "
+               "tolerances as python ints / numpy scalars) hold exactly representable values; the expected result is that of the "
+               "VALUES (the Lean model / spec have no storage dtype); interpolated fills and integrals of narrow-dtype inputs may "
+               "legitimately be computed in float32 and are compared at 1e-5 relative, everything else at 1e-9 / exactly"]
 MANIFEST = dict(
     level="proof",
     text="Kernel-checked Lean theorems about an executable model of the eight CDF tools and adjust_fcst_for_crps (for lists of "
@@ -43,11 +48,17 @@ MANIFEST = dict(
          "Round_values is proved for precisions whose multiples survive the final 7-decimal rounding (all dyadic precisions >= 2^-7); "
          "other precisions are float-rounding questions outside the model. Exact CRPS ties in adjust are accepted either way unless "
          "the float computation is exact (trapz on a dyadic grid). Inputs are built C-contiguous (bottleneck 1.6 misreads "
-         "transposed views with size-1 dims). No infinities, no dask (F15 belongs to C04).",
+         "transposed views with size-1 dims). No infinities, no dask (F15 belongs to C04). Storage dtypes are not modelled (the "
+         "model is a function of the values): that input class is compared against the model / spec evaluated on the exact values "
+         "and against the float64-stored run of the same values; one dtype defect of the unchanged code (decreasing tolerance "
+         "given as an unsigned numpy scalar: -tolerance wraps around, notes/C17.md) is skipped by the correspondence and tagged "
+         "by the oracle.",
     technique="Lean 4 theorems over a hand-written executable model + differential correspondence + independent Lean-Spec / relational oracle",
     design="6/C17")
 RULE = ("random CDF arrays (length 1-6, decreasing runs, plateaus, NaN, 0-2 extra dims in any order) per tool, plus the exhaustive "
-        "enumeration of all CDFs of length <= 4 over {0,1/4,1/2,1,NaN} (thorough); distinct = distinct (tool, arguments); "
+        "enumeration of all CDFs of length <= 4 over {0,1/4,1/2,1,NaN} (thorough); per tool the same generator with the operands "
+        "stored in float32 / signed integer / bool dtypes (batches *-dtype) and with at least one uint8 / uint16 operand (batches "
+        "*-unsigned), values made exactly representable first; distinct = distinct (tool, arguments, storage); "
         "non-trivial = at least one non-NaN ordinate and not in the malformed stream")
 
 TOOLS = ["round", "propagate", "observed", "integrate", "fill", "add", "decreasing", "envelope", "adjust"]
@@ -116,6 +127,285 @@ def gen_case(rng, tool, malformed_ok=True):
     return c
 
 
+# ----------------------------------------------------------------------------- storage dtypes
+# The VALUES of a case are the floats in the case (thr / rows / obs / new / ...).  case["dt"] only says in which numpy dtype
+# (or python representation) each operand is STORED when it is handed to the library; every value is exactly representable
+# there (integers for the integer dtypes, 0/1 for bool, small dyadics for float32, NaN only in float storage).  The Lean
+# model / spec never see the storage: the expected result is a function of the exact values.
+#   dt keys: v ordinates (rows / xs)   t threshold coordinate   o observations   pw piece weights (arrays: numpy dtype names)
+#            new / tv / add  list arguments: "list" (python floats) | "pyint" (python ints) | numpy dtype name (ndarray)
+#            prec / tol      scalars: "int" (python int) | numpy dtype name (numpy scalar) | absent (python float)
+SIGNED = ["int64", "int32", "int16", "int8"]
+UNSIGNED = ["uint8", "uint16"]
+# numpy keeps float32 when these meet float32, and xarray promotes the integer ones to float32 when it needs a NaN
+NARROW = ("float32", "int16", "int8", "uint8", "uint16", "bool")
+
+
+def is_int_dt(dt):
+    return dt is not None and (dt.startswith("int") or dt.startswith("uint") or dt in ("bool", "pyint"))
+
+
+def fits(v, dt):
+    if dt in (None, "float64", "list"):
+        return True
+    if math.isnan(v):
+        return dt == "float32"
+    if dt == "float32":
+        return float(np.float32(v)) == v
+    if dt == "bool":
+        return v in (0.0, 1.0)
+    if dt in ("pyint", "int"):
+        return v == int(v)
+    info = np.iinfo(dt)
+    return v == int(v) and info.min <= v <= info.max
+
+
+def stored(xs, dt):
+    a = np.array(xs, dtype=float)
+    if dt in (None, "float64"):
+        return a
+    assert all(fits(float(v), dt) for v in a.ravel()), ("value not representable in its storage dtype", dt, xs)
+    return a.astype(dt)
+
+
+def as_arg(xs, rep):
+    if xs is None or rep in (None, "list"):
+        return xs
+    if rep == "pyint":
+        assert all(fits(x, "pyint") for x in xs), xs
+        return [int(x) for x in xs]
+    return stored(xs, rep)
+
+
+def as_scalar(x, rep):
+    if rep is None:
+        return x
+    assert fits(float(x), rep), (x, rep)
+    if rep == "int":
+        return int(x)
+    return np.dtype(rep).type(x)
+
+
+def dt_of(c, k):
+    return (c.get("dt") or {}).get(k)
+
+
+def has_unsigned(c):
+    return any(v in UNSIGNED for v in (c.get("dt") or {}).values())
+
+
+def narrow_compute(c):
+    """the library may legitimately compute this case in float32 (rounding is not modelled: compare at 1e-5)"""
+    return any(v in NARROW for v in (c.get("dt") or {}).values())
+
+
+def rtol_of(c):
+    inexact = c["tool"] == "integrate" or (c["tool"] in ("fill", "add") and c.get("method") == "linear")
+    return 1e-5 if (inexact and narrow_compute(c)) else 1e-9
+
+
+def strip_dt(c):
+    return {k: v for k, v in c.items() if k != "dt"}
+
+
+def dtype_defect(c):
+    """the case lies in the documented dtype defect class of the unchanged code (notes/C17.md): a positive decreasing tolerance
+    handed over as an UNSIGNED numpy scalar — `< -tolerance` wraps around (-uint8(1) = 255), every CDF is flagged.  The model
+    (values only) does not describe the code there: the correspondence skips these cases, the property oracle runs and tags them"""
+    return c["tool"] in ("decreasing", "adjust") and dt_of(c, "tol") in UNSIGNED and c.get("tol", 0) > 0
+
+
+def dtype_tags(c):
+    """failure tags of the storage-dtype class (a known-finding entry can match exactly these)"""
+    if not c.get("dt"):
+        return {}
+    t = {"dtype_class": "unsigned" if has_unsigned(c) else "signed-or-float32"}
+    if dtype_defect(c):
+        t["defect"] = "unsigned-scalar-tolerance"
+    for k, v in c["dt"].items():
+        t["dt_" + k] = v
+    return t
+
+
+def batch_suffix(c):
+    return "" if not c.get("dt") else ("-unsigned" if has_unsigned(c) else "-dtype")
+
+
+def adjust_dtype_tie(c, impl, impl64):
+    """adjust: an exact CRPS tie between candidates may be broken differently by float32 / float64 rounding"""
+    return narrow_compute(c) and not cc.float_exact(c) and not isinstance(impl, dict) and not isinstance(impl64, dict)
+
+
+def mk17(c, tdim, rows=None, vkey="v"):
+    """cc.mk with the ordinates / threshold coordinate stored in the case's dtypes"""
+    da = cc.mk(c, tdim, rows=rows)
+    vd, td = dt_of(c, vkey), dt_of(c, "t")
+    if vd is None and td is None:
+        return da
+    coords = {d: (stored(da[d].values, td) if d == tdim else da[d].values) for d in da.dims}
+    return xr.DataArray(np.array(stored(da.values, vd), order="C"), dims=da.dims, coords=coords)
+
+
+def mk_obs17(c):
+    da = cc.mk_obs(c)
+    od = dt_of(c, "o")
+    if od is None:
+        return da
+    return xr.DataArray(np.array(stored(da.values, od), order="C"), dims=da.dims, coords={d: da[d].values for d in da.dims})
+
+
+def _pick(rng, unsigned, ints=True, floats=True):
+    pool = (["uint8", "uint8", "uint16", "uint16", "int64", "float64", "float32"] if unsigned else
+            ["float32", "float32", "int64", "int64", "int32", "int32", "int16", "int8", "float64"])
+    return rng.choice([d for d in pool if (ints or not is_int_dt(d)) and (floats or is_int_dt(d))])
+
+
+def _rep_list(rng, xs, unsigned):
+    """a representation of a list argument that holds its values exactly"""
+    cands = ["list", "list"]
+    if xs and all(fits(x, "pyint") for x in xs):
+        cands += ["pyint"] + [d for d in (UNSIGNED + ["int64"] if unsigned else SIGNED) if all(fits(x, d) for x in xs)]
+    if xs and not unsigned:
+        cands += ["float32"]
+    return rng.choice(cands)
+
+
+def _rep_scalar(rng, x, unsigned):
+    if x == int(x):
+        return rng.choice(["int", "int", "int", None, "int64", "float32"] + (["uint8", "uint16"] if unsigned and x >= 0 else []))
+    return rng.choice([None, None, "float32"])
+
+
+def _to_int_storage(rng, v, dt, fallback):
+    """the value actually stored when an operand drawn as float goes into an integer dtype: floor; NaN cannot be stored"""
+    if math.isnan(v):
+        v = fallback
+    v = float(math.floor(v))
+    if dt in UNSIGNED or dt == "bool":
+        v = abs(v)
+    if dt == "bool":
+        v = float(v >= 1)
+    return v
+
+
+def gen_dtype_case(rng, tool, unsigned=False):
+    """a well-formed case of `tool` whose operands are stored in integer / float32 dtypes (values adjusted first so that
+    they are exactly representable); unsigned=True: at least one operand is uint8 / uint16"""
+    c = gen_case(rng, tool, malformed_ok=False)
+    dt = {}
+    if tool == "round":
+        vd = rng.choice(UNSIGNED) if unsigned else ("bool" if rng.random() < 0.05 else _pick(rng, False))
+        if is_int_dt(vd):
+            c["xs"] = [_to_int_storage(rng, x, vd, rng.randint(-6, 6)) for x in c["xs"]]
+        dt["v"] = vd
+        c["prec"] = rng.choice([0, 1, 2, 4, 2, 1, 3, 0.5, 0.25, 0.125])
+        dt["prec"] = _rep_scalar(rng, c["prec"], unsigned)
+    elif tool == "observed":
+        od = _pick(rng, unsigned)
+        if unsigned and od not in UNSIGNED and rng.random() < 0.6:
+            od = rng.choice(UNSIGNED)
+        if is_int_dt(od):
+            c["obs"] = [_to_int_storage(rng, x, od, rng.randint(-2, 4)) for x in c["obs"]]
+        dt["o"] = od
+        if c["tv"] is not None:
+            if rng.random() < (0.6 if is_int_dt(od) else 0.2):
+                # fractional threshold values (python floats) next to the stored observations
+                pool = [v for v in c["obs"] if not math.isnan(v)] or [0.0]
+                c["tv"] = [rng.choice([rng.randint(-8, 16) / 4, rng.choice(pool) + rng.choice([0.5, -0.5, 0.25, -0.25]), rng.choice(pool)])
+                           for _ in range(rng.randint(1, 4))]
+            else:
+                tvd = _pick(rng, unsigned) if rng.random() < 0.5 else None
+                if tvd is not None and is_int_dt(tvd):
+                    c["tv"] = [_to_int_storage(rng, x, tvd, 1) for x in c["tv"]]
+                dt["tv"] = tvd if tvd is not None else _rep_list(rng, c["tv"], unsigned)
+        if unsigned and od not in UNSIGNED and dt.get("tv") not in UNSIGNED:
+            dt["o"] = "uint8"
+            c["obs"] = [_to_int_storage(rng, x, "uint8", 2) for x in c["obs"]]
+        c["prec"] = rng.choice([0, 0, 0, 0, 1, 2, 1, 0.5, 0.25])   # (a positive precision turns the observations into floats first)
+        dt["prec"] = _rep_scalar(rng, c["prec"], unsigned)
+    else:
+        thr = c["thr"]
+        td = _pick(rng, unsigned) if rng.random() < 0.85 else rng.choice(["float32", "float64"])
+        r = rng.random()
+        if r < 0.45:
+            vd = "float32"                                 # k/8 is exact in float32
+        elif r < 0.8:                                      # 0/1 step CDFs (integrate: 0..8) in an integer dtype / bool
+            vd = rng.choice(UNSIGNED + ["int64"] if unsigned else SIGNED + ["int64", "bool"])
+        else:
+            vd = _pick(rng, unsigned)
+        if unsigned and td not in UNSIGNED and vd not in UNSIGNED:
+            if rng.random() < 0.6:
+                td = rng.choice(UNSIGNED)
+            else:
+                vd = rng.choice(UNSIGNED)
+        if is_int_dt(td):
+            if any(t != int(t) for t in thr):
+                thr = [2 * t for t in thr]
+            if td in UNSIGNED:
+                lo = min(thr) - rng.choice([0, 0, 1, 2])
+                thr = [t - lo for t in thr]
+        c["thr"] = thr
+        if is_int_dt(vd):
+            scale = 8 if (tool == "integrate" and vd != "bool" and rng.random() < 0.7) else 1
+            rows = []
+            for r in c["rows"]:
+                if tool == "decreasing" and any(math.isnan(v) for v in r):
+                    r = [0.0 if math.isnan(v) else v for v in r]
+                rows.append([float(rng.randint(0, 1)) * scale if math.isnan(v) else
+                             (v * 8 if scale == 8 else float(v >= 0.5)) for v in r])
+            c["rows"] = rows
+        dt["t"], dt["v"] = td, vd
+        lo, hi = int(min(thr)) - 3, int(max(thr)) + 3
+        if tool == "add":
+            m = rng.randint(0, 4)
+            c["new"] = [rng.choice([rng.randint(2 * lo, 2 * hi) / 2, rng.choice(thr), rng.randint(lo, hi) * 1.0]) for _ in range(m)]
+            if rng.random() < 0.5 and is_int_dt(td) and m:
+                pass                                       # half-valued new thresholds as python floats against an integer coordinate
+            else:
+                nd = _pick(rng, unsigned) if rng.random() < 0.4 else None
+                if nd is not None and is_int_dt(nd):
+                    c["new"] = [_to_int_storage(rng, x, nd, 0) for x in c["new"]]
+                dt["new"] = nd if nd is not None else _rep_list(rng, c["new"], unsigned)
+                if dt["new"] in ("list", "float32") and c["new"] and rng.random() < 0.3:
+                    c["new"][rng.randrange(len(c["new"]))] = cc.NAN
+        if tool == "decreasing":
+            c["tol"] = rng.choice([0, 0, 0.125, 0.25, 0.5, 1, 1, 2])
+            if rng.random() < 0.5:
+                tds = [cc.total_decrease(r) for r in c["rows"] if not any(math.isnan(v) for v in r)]
+                if tds:
+                    c["tol"] = max(0.0, rng.choice(tds) + rng.choice([0, 0, -0.125, 0.125]))
+            dt["tol"] = _rep_scalar(rng, c["tol"], unsigned)
+        if tool == "integrate":
+            c["pw"] = None
+            if rng.random() < 0.5:
+                pd_ = _pick(rng, unsigned)
+                pool = [0.0, 1.0, 1.0, 2.0, 3.0] if is_int_dt(pd_) else [0.0, 1.0, 0.5, 0.25, 2.0, 1.0, cc.NAN]
+                c["pw"] = [[rng.choice(pool) for _ in r] for r in c["rows"]]
+                dt["pw"] = pd_
+        if tool == "adjust":
+            c["tol"] = rng.choice([0, 0, 0, 0.125, 0.25, 0.5, 1])
+            if rng.random() < 0.5:   # the tolerance exactly on / next to the total decrease of some row
+                tds = [cc.total_decrease(r) for r in c["rows"] if not any(math.isnan(v) for v in r)]
+                if tds:
+                    c["tol"] = max(0.0, rng.choice(tds) + rng.choice([0, 0, -0.125, 0.125]))
+            dt["tol"] = _rep_scalar(rng, c["tol"], unsigned)
+            c.update(cc.gen_obs(rng, c))
+            od = _pick(rng, unsigned)
+            if is_int_dt(td) and rng.random() < 0.5:   # fractional observations against an integer threshold coordinate
+                od = rng.choice(["float32", "float64"])
+                c["obs_vals"] = [v if math.isnan(v) else v + rng.choice([0, 0.5, 0.5, 0.25, -0.5]) for v in c["obs_vals"]]
+            if is_int_dt(od):
+                c["obs_vals"] = [_to_int_storage(rng, x, od, rng.choice(thr)) for x in c["obs_vals"]]
+            dt["o"] = od
+            c["additional"] = rng.choice([None, None, [], [rng.randint(2 * lo, 2 * hi) / 2 for _ in range(rng.randint(1, 3))]])
+            if c["additional"]:
+                if rng.random() < 0.5:
+                    c["additional"] = [_to_int_storage(rng, x, "uint8" if unsigned else "int64", 0) for x in c["additional"]]
+                dt["add"] = _rep_list(rng, c["additional"], unsigned)
+    c["dt"] = {k: v for k, v in dt.items() if v is not None}
+    return c
+
+
 def enum_cdfs(maxlen, pool):
     for n in range(2, maxlen + 1):
         for t in itertools.product(pool, repeat=n):
@@ -131,35 +421,37 @@ def run_impl(c):
     try:
         with np.errstate(all="ignore"):
             if tool == "round":
-                da = xr.DataArray(np.array(c["xs"], dtype=float), dims=["x"])
-                return [float(v) for v in C.round_values(da, c["prec"], final_round_decpl=c["decpl"]).values]
+                da = xr.DataArray(stored(c["xs"], dt_of(c, "v")), dims=["x"])
+                return [float(v) for v in C.round_values(da, as_scalar(c["prec"], dt_of(c, "prec")),
+                                                         final_round_decpl=c["decpl"]).values]
             if tool == "observed":
                 tdim = cc.fresh("thre", "shold")
                 dims = ["p", "q"][:len(c["obs_shape"])]
-                da = xr.DataArray(np.array(c["obs"], dtype=float).reshape(c["obs_shape"]), dims=dims)
-                r = C.observed_cdf(da, tdim, threshold_values=c["tv"], include_obs_in_thresholds=c["include"], precision=c["prec"])
+                da = xr.DataArray(stored(c["obs"], dt_of(c, "o")).reshape(c["obs_shape"]), dims=dims)
+                r = C.observed_cdf(da, tdim, threshold_values=as_arg(c["tv"], dt_of(c, "tv")), include_obs_in_thresholds=c["include"],
+                                   precision=as_scalar(c["prec"], dt_of(c, "prec")))
                 r = r.transpose(*dims, tdim)
                 g = [float(v) for v in r[tdim].values]
                 if not g:
                     return {"grid": g, "rows": [[] for _ in c["obs"]]}
                 return {"grid": g, "rows": np.asarray(r.values, dtype=float).reshape(-1, len(g)).tolist()}
             tdim = cc.fresh("thr", "eshold")
-            da = cc.mk(c, tdim)
+            da = mk17(c, tdim)
             if tool == "propagate":
                 return cc.rows_of(C.propagate_nan(da, tdim), c, tdim)
             if tool == "integrate":
                 if c.get("pw") is not None:
-                    r = C.integrate_square_piecewise_linear(da, tdim, piece_weight=cc.mk(c, tdim, rows=c["pw"]))
+                    r = C.integrate_square_piecewise_linear(da, tdim, piece_weight=mk17(c, tdim, rows=c["pw"], vkey="pw"))
                 else:
                     r = C.integrate_square_piecewise_linear(da, tdim)
                 return cc.scalars_of(r, c)
             if tool == "fill":
                 return cc.rows_of(C.fill_cdf(da, tdim, c["method"], c["min_nonnan"]), c, tdim)
             if tool == "add":
-                r = C.add_thresholds(da, tdim, c["new"], c["method"], min_nonnan=c["min_nonnan"])
+                r = C.add_thresholds(da, tdim, as_arg(c["new"], dt_of(c, "new")), c["method"], min_nonnan=c["min_nonnan"])
                 return {"grid": [float(v) for v in r[tdim].values], "rows": cc.rows_of(r, c, tdim)}
             if tool == "decreasing":
-                r = C.decreasing_cdfs(da, tdim, c["tol"])
+                r = C.decreasing_cdfs(da, tdim, as_scalar(c["tol"], dt_of(c, "tol")))
                 return [bool(v) for v in cc.scalars_of(r, c)]
             if tool == "envelope":
                 r = C.cdf_envelope(da, tdim)
@@ -168,9 +460,10 @@ def run_impl(c):
                     out[k] = cc.rows_of(r.sel(cdf_type=k, drop=True), c, tdim)
                 return out
             if tool == "adjust":
-                obs = cc.mk_obs(c)
-                r = crps_impl.adjust_fcst_for_crps(da, tdim, obs, decreasing_tolerance=c["tol"],
-                                                   additional_thresholds=c["additional"], fcst_fill_method=c["fill"],
+                obs = mk_obs17(c)
+                r = crps_impl.adjust_fcst_for_crps(da, tdim, obs, decreasing_tolerance=as_scalar(c["tol"], dt_of(c, "tol")),
+                                                   additional_thresholds=as_arg(c["additional"], dt_of(c, "add")),
+                                                   fcst_fill_method=c["fill"],
                                                    integration_method=c["integ"])
                 if list(map(float, r[tdim].values)) != list(map(float, c["thr"])):
                     return {"err": "Other:threshold-coordinates-changed"}
@@ -239,6 +532,8 @@ def nontrivial(c):
 
 def tags_of(ctx, c):
     ctx.tag("tool:" + c["tool"])
+    for k, v in sorted((c.get("dt") or {}).items()):
+        ctx.tag("dtype:%s=%s" % (k, v))
     if malformed(c):
         ctx.tag("malformed")
     if "rows" in c:
@@ -256,7 +551,7 @@ def tags_of(ctx, c):
 
 
 # ----------------------------------------------------------------------------- comparison
-def same(impl, model):
+def same(impl, model, rtol=1e-9):
     """impl result (floats) vs model result (protocol strings), both in the model's shape"""
     if isinstance(model, dict) and "fail" in model:
         return False
@@ -265,12 +560,25 @@ def same(impl, model):
     if isinstance(model, dict) and "err" in model:
         return False
     if isinstance(model, dict):
-        return set(k for k in model) >= set(impl) and all(same(impl[k], model[k]) for k in impl)
+        return set(k for k in model) >= set(impl) and all(same(impl[k], model[k], rtol) for k in impl)
     if isinstance(model, list):
-        return isinstance(impl, list) and len(impl) == len(model) and all(same(a, b) for a, b in zip(impl, model))
+        return isinstance(impl, list) and len(impl) == len(model) and all(same(a, b, rtol) for a, b in zip(impl, model))
     if isinstance(model, bool) or isinstance(impl, bool):
         return bool(impl) == bool(model)
-    return core.close(impl, model)
+    return core.close(impl, model, rtol=rtol)
+
+
+def same_runs(a, b, rtol=1e-9):
+    """two implementation results (same values, different storage dtypes)"""
+    if isinstance(a, dict) and "err" in a or isinstance(b, dict) and "err" in b:
+        return isinstance(a, dict) and isinstance(b, dict) and a.get("err") == b.get("err")
+    if isinstance(a, dict) or isinstance(b, dict):
+        return isinstance(a, dict) and isinstance(b, dict) and set(a) == set(b) and all(same_runs(a[k], b[k], rtol) for k in a)
+    if isinstance(a, list) or isinstance(b, list):
+        return isinstance(a, list) and isinstance(b, list) and len(a) == len(b) and all(same_runs(x, y, rtol) for x, y in zip(a, b))
+    if isinstance(a, bool) or isinstance(b, bool):
+        return bool(a) == bool(b)
+    return core.close_ff(a, b, rtol=rtol)
 
 
 def adjust_candidates(c, det):
@@ -286,6 +594,13 @@ def correspondence(ctx):
         k = per_tool * (2 if tool in ("fill", "add", "envelope", "adjust") else 1)
         for _ in range(k):
             cases.append(gen_case(rng, tool))
+    nd = ctx.n(30, 200)
+    for tool in TOOLS:             # the same tools on operands stored as int64 / int32 / int16 / int8 / bool / float32 ...
+        k = nd * (3 if tool == "adjust" else 1)
+        for _ in range(k):
+            cases.append(gen_dtype_case(rng, tool))
+        for _ in range(max(1, k // 3)):   # ... and, in batches of their own, uint8 / uint16
+            cases.append(gen_dtype_case(rng, tool, unsigned=True))
     if ctx.thorough:
         pool = [0.0, 0.25, 0.5, 1.0, cc.NAN]
         n0 = len(cases)
@@ -303,18 +618,22 @@ def correspondence(ctx):
                               f"decreasing, adjust ({len(cases) - n0} cases)")
     models = core.run_driver("C17", [model_op(c) for c in cases])
     for c, m in zip(cases, models):
-        ctx.case("impl-vs-model:" + c["tool"], c, nontrivial=nontrivial(c))
+        batch = "impl-vs-model" + batch_suffix(c) + ":" + c["tool"]
+        ctx.case(batch, c, nontrivial=nontrivial(c))
         tags_of(ctx, c)
+        if dtype_defect(c):
+            ctx.tag("dtype-defect-class-skipped-by-correspondence")
+            continue
         impl = run_impl(c)
         if isinstance(impl, dict) and "err" in impl:
             ctx.tag("raises:" + impl["err"])
-        ok = same(impl, m["rows"] if c["tool"] == "adjust" and isinstance(m, dict) and "rows" in m else m)
+        ok = same(impl, m["rows"] if c["tool"] == "adjust" and isinstance(m, dict) and "rows" in m else m, rtol_of(c))
         if not ok and c["tool"] == "adjust" and isinstance(m, dict) and "rows" in m and not (isinstance(impl, dict)):
             # an exact CRPS tie between candidates may be broken by float rounding
             ok = adjust_tie_ok(c, impl, m, ctx)
         if not ok:
-            ctx.fail("impl-vs-model:" + c["tool"], "correspondence", c["tool"], "value", c, observed=impl, expected=m,
-                     tags={"tool": c["tool"]})
+            ctx.fail(batch, "correspondence", c["tool"], "value", c, observed=impl, expected=m,
+                     tags=dict({"tool": c["tool"]}, **dtype_tags(c)))
 
 
 def adjust_tie_ok(c, impl, m, ctx):
@@ -346,7 +665,14 @@ def check_case(ctx, c, spec, batch):
     impl = run_impl(c)
 
     def bad(sig, obs=None, exp=None, thm=None):
-        ctx.fail(batch, "property", tool, sig, c, observed=obs, expected=exp, tags={"tool": tool}, theorem=thm)
+        ctx.fail(batch, "property", tool, sig, c, observed=obs, expected=exp, tags=dict({"tool": tool}, **dtype_tags(c)), theorem=thm)
+
+    rtol = rtol_of(c)
+    if c.get("dt"):
+        # relation: the same values stored as float64 give the same result (the result is a function of the values)
+        impl64 = run_impl(strip_dt(c))
+        if not same_runs(impl, impl64, rtol) and not (tool == "adjust" and adjust_dtype_tie(c, impl, impl64)):
+            bad("result-depends-on-storage-dtype", impl, impl64)
 
     if isinstance(impl, dict) and "err" in impl:
         if not malformed(c) and not (tool == "decreasing" and cc.partial_nan_rows(c)):
@@ -404,7 +730,7 @@ def check_case(ctx, c, spec, batch):
                 tot += Fraction(pwk) * (thr[k + 1] - thr[k]) * (a * a + a * b + b * b) / 3
                 any_piece = True
             want = tot if any_piece else cc.NAN
-            if not core.close(r, want):
+            if not core.close(r, want, rtol=rtol):
                 bad("integral-of-square", r, want, "piece_eq")
     elif tool in ("fill", "add"):
         m = c["method"]
@@ -432,7 +758,7 @@ def check_case(ctx, c, spec, batch):
                 if t not in given and not math.isnan(v) and not (0 <= v <= 1):
                     bad("filled-value-outside-unit-interval", rs, "[0,1]", "fillRow_unit")
                     break
-            if want_rows is not None and not same(rs, want_rows[i]):
+            if want_rows is not None and not same(rs, want_rows[i], rtol):
                 bad("fill-method-" + m, rs, want_rows[i], "fillRow_eq_spec")
             if m == "none":
                 for t, v in zip(grid, rs):
@@ -532,6 +858,13 @@ def oracle(ctx, boost):
         k = per_tool * (2 if tool in ("add", "envelope", "adjust") else 1)
         for _ in range(k):
             cases.append(gen_case(rng, tool, malformed_ok=rng.random() < 0.15))
+    nd = ctx.n(30, 150) * mult
+    for tool in ORACLE_TOOLS:
+        k = nd * (3 if tool == "adjust" else 1)
+        for _ in range(k):
+            cases.append(gen_dtype_case(rng, tool))
+        for _ in range(max(1, k // 3)):
+            cases.append(gen_dtype_case(rng, tool, unsigned=True))
     if ctx.thorough or boost:
         pool = [0.0, 0.25, 0.5, 1.0, cc.NAN]
         for xs in enum_cdfs(4 if ctx.thorough else 3, pool):
@@ -549,8 +882,10 @@ def oracle(ctx, boost):
     specs = core.run_driver("C17", [spec_op(c) for c in need])
     smap = {id(c): s for c, s in zip(need, specs)}
     for c in cases:
-        batch = "property:" + c["tool"]
+        batch = "property" + batch_suffix(c) + ":" + c["tool"]
         ctx.case(batch, c, nontrivial=nontrivial(c))
+        for k, v in sorted((c.get("dt") or {}).items()):
+            ctx.tag("dtype:%s=%s" % (k, v))
         check_case(ctx, c, smap.get(id(c)), batch)
 
 
